@@ -10,6 +10,7 @@ Bind:  every key of the element table and every modifier applied to elements
 from __future__ import annotations
 
 import re
+import sys
 import time
 
 from . import common, extract, runner, tlc
@@ -292,5 +293,6 @@ def main(tier):
          "whole-stack operations are the set in spec/Trace_Frame.tla"],
         len(V.violations),
     )
+    sys.stdout.write("\n")       # (text run by Ė / E may have left the line unfinished)
     print(f"C09 {tier}: {len(cs)} runs, verdicts {tally}, {len(okkeys)} constructs judged, {time.time() - t0:.1f}s")
     return rc
